@@ -103,6 +103,7 @@ pub fn case_strategy(max_blocks: usize) -> impl Strategy<Value = Case> {
         tx_rate: 30,
         invalid_pct: 10,
         uncle_pct: 15,
+        dao_pct: 0,
     };
     (
         0u8..4,
@@ -235,10 +236,23 @@ fn delivery_order(built: &Built, s: &Schedule) -> Vec<H> {
 
 /// run one schedule on a fresh node and check the oracle at every quiescent point
 pub fn run_schedule(env: &Env, built: &Built, s: &Schedule, st: &mut Stats) -> Result<RunOut, Violation> {
+    run_schedule_with(env, built, s, st, &mut |_, _, _| Ok(()), NodeCfg::default()).map(|(o, _)| o)
+}
+
+/// Same, with an extra oracle evaluated at every quiescent point (after C01's own), and the node
+/// handed back (still running) for end-of-history checks.
+pub fn run_schedule_with(
+    env: &Env,
+    built: &Built,
+    s: &Schedule,
+    st: &mut Stats,
+    extra: &mut dyn FnMut(&Node, &str, &mut Stats) -> Verdict,
+    node_cfg: NodeCfg,
+) -> Result<(RunOut, Node), Violation> {
     let tree = &built.tree;
     install_panic_recorder();
     clear_panics();
-    let node = Node::start(env, NodeCfg::default()).map_err(|e| Violation::new("harness:node-start", e))?;
+    let node = Node::start(env, node_cfg).map_err(|e| Violation::new("harness:node-start", e))?;
     let order = delivery_order(built, s);
     let mut rec = Received { set: BTreeSet::new(), seen: BTreeSet::new() };
     let (tx, rx) = mpsc::channel::<(usize, Result<bool, String>)>();
@@ -458,6 +472,7 @@ pub fn run_schedule(env: &Env, built: &Built, s: &Schedule, st: &mut Stats) -> R
                 quiesce(&node, &barrier)?;
                 pending_async = false;
                 check(&node, &rec, &mut last_tip, &mut last_td, &mut max_reorg, &format!("before sync delivery {i}"))?;
+            extra(&node, &format!("before sync delivery {i}"), &mut *st)?;
             }
             let r = node.submit(&b.block);
             st.label("delivery:sync");
@@ -507,6 +522,7 @@ pub fn run_schedule(env: &Env, built: &Built, s: &Schedule, st: &mut Stats) -> R
             // the delivery may have released orphans that are verified asynchronously
             quiesce(&node, &barrier.clone().or_else(|| if in_v(tree, &rec, h) { Some(h.clone()) } else { None }))?;
             check(&node, &rec, &mut last_tip, &mut last_td, &mut max_reorg, &format!("after sync delivery {i} (#{})", b.number))?;
+            extra(&node, &format!("after sync delivery {i} (#{})", b.number), &mut *st)?;
             if barrier.is_none() && in_v(tree, &rec, h) {
                 barrier = Some(h.clone());
             }
@@ -526,6 +542,7 @@ pub fn run_schedule(env: &Env, built: &Built, s: &Schedule, st: &mut Stats) -> R
                 quiesce(&node, &barrier)?;
                 pending_async = false;
                 check(&node, &rec, &mut last_tip, &mut last_td, &mut max_reorg, &format!("after async burst ending at delivery {i}"))?;
+            extra(&node, &format!("after async burst ending at delivery {i}"), &mut *st)?;
                 if barrier.is_none() {
                     // first fully valid connected block becomes the barrier
                     for d in delivered.iter().chain(std::iter::once(h)) {
@@ -544,6 +561,7 @@ pub fn run_schedule(env: &Env, built: &Built, s: &Schedule, st: &mut Stats) -> R
     }
     quiesce(&node, &barrier)?;
     check(&node, &rec, &mut last_tip, &mut last_td, &mut max_reorg, "final")?;
+            extra(&node, "final", &mut *st)?;
     while let Ok((tag, r)) = rx.try_recv() {
         results.insert(tag, r);
     }
@@ -570,8 +588,7 @@ pub fn run_schedule(env: &Env, built: &Built, s: &Schedule, st: &mut Stats) -> R
         max_reorg_depth: max_reorg,
         child_before_parent_across_fork: cbp_fork,
     };
-    node.stop();
-    Ok(out)
+    Ok((out, node))
 }
 
 fn prop(case: &Case, st: &mut Stats) -> Verdict {
@@ -648,6 +665,7 @@ pub fn dup_case_strategy() -> impl Strategy<Value = Case> {
         tx_rate: 10,
         invalid_pct: 35,
         uncle_pct: 5,
+        dao_pct: 0,
     };
     (
         0u8..4,
